@@ -614,5 +614,6 @@ V('ab3r-shortcut', ['C13'], U, "    return o_txt + i_txt[last:], o_pos + i_pos[l
 V('tj6-allow-nan', ['C15'], GJ, "    out.write(json.dumps(message))", "    out.write(json.dumps(message, allow_nan=False))", 'TJ6')
 V('tx2-rstrip', ['C16'], PR, "    if not tex.endswith('\\n'):\n        tex += '\\n'\n", "    tex = tex.rstrip('\\n') + '\\n'\n", 'TX2')
 V('th9-empty-piece', ['C16'], GH, "    def f(m):\n        return pre + m.group(1) + post + m.group(2)", "    def f(m):\n        if not m.group(1):\n            return m.group(2)\n        return pre + m.group(1) + post + m.group(2)", 'TH9')
-V('sh3b-no-nosp', ['C18'], SH, "                            dcls=cmdline.documentclass, pack=cmdline.packages,\n                            nosp=cmdline.no_specials)\n\ndef skip_file", "                            dcls=cmdline.documentclass, pack=cmdline.packages)\n\ndef skip_file", 'SH3b')
+V('sh3b-no-nosp', ['C18'], SH, "                            nosp=cmdline.no_specials, ienc=cmdline.encoding)\n\ndef skip_file", "                            ienc=cmdline.encoding)\n\ndef skip_file", 'SH3b')
+V('sh1-no-ienc', ['C09'], SH, "                            nosp=cmdline.no_specials, ienc=cmdline.encoding)\n\ndef skip_file", "                            nosp=cmdline.no_specials)\n\ndef skip_file", 'SH1')
 V('em7-inline-only', ['C03', 'C08'], MP, "            if not tok or type(tok) is defs.ParagraphToken:\n                buf.next()\n                out = (utils.latex_error('missing end of maths'", "            if not tok or (type(tok) is defs.ParagraphToken\n                                    and env_stop is None):\n                buf.next()\n                out = (utils.latex_error('missing end of maths'", 'EM7')
